@@ -85,7 +85,7 @@ const (
 )
 
 // CPUHangLimit is the CPU-time budget of a single case (inputs are <= 64 KiB).
-const CPUHangLimit = 20.0
+var CPUHangLimit = 20.0
 
 func (w *Worker) watchdog() {
 	for {
@@ -236,6 +236,11 @@ func (c *Case) CountN(key string, n int) {
 // key identifies the case for distinctness.
 func (c *Case) NonTrivial(key string) {
 	c.w.nt[Hash64(key)] = struct{}{}
+}
+
+// HarnessError reports a fault of the machinery itself (the check is then broken, not the property).
+func (c *Case) HarnessError(msg string) {
+	c.w.Res.HarnessErr = append(c.w.Res.HarnessErr, fmt.Sprintf("case %d/%d: %s", c.Batch, c.Index, msg))
 }
 
 func (c *Case) Inconclusive(reason string) { c.w.Res.Inconclusive[reason]++ }
